@@ -3,6 +3,8 @@
 // reaches the despawner; Cleanup / Revokable => a ref-counted handle for exactly this reactor.
 
 #[kani::proof]
+#[kani::stub(core::any::TypeId::of, crate::vh::stub_typeid_of)]
+#[kani::stub(<core::any::TypeId as crate::vh::PEq>::eq, crate::vh::stub_typeid_eq)]
 fn reactormode_prepare_by_mode()
 {
     let d = crate::ecs::auto_despawn::verif_h::mk_despawner();
